@@ -454,3 +454,216 @@ def bounded_bytes(pid, tier, seed):
             "byte-sequence injections (invalid UTF-8, NUL, quote, comment/text openers), and %d hand-picked degenerate inputs"
             % (evals, len(base), len(extra)), "rule": "distinct = input bytes", "evaluations": evals, "distinct": len(distinct),
             "samples": samples, "exhaustive": False, "violations": vio}
+
+
+# ----------------------------------------------------------------------------- C18: error positions
+
+def _positions(tokens, sep):
+    """byte offset of every token when the tokens are joined by sep"""
+    out = []
+    pos = 0
+    for t in tokens:
+        out.append(pos)
+        pos += len(t) + len(sep)
+    return out
+
+
+def _line_col(data, off):
+    line = data.count(b"\n", 0, off) + 1
+    col = off - data.rfind(b"\n", 0, off)
+    return line, col
+
+
+def bounded_positions(pid, tier, seed):
+    """(valid script, insertion point, offending token) triples: the reported line/column/length must be those of the
+    offending token; and the reported position must not depend on what follows it."""
+    from bounded import sieve_gen as g
+    rng = random.Random(seed or 1)
+    S = g.scripts(seed or 1)
+    S = [t for t in S if b"addflag" not in t and b"setflag" not in t and b"removeflag" not in t and b"hasflag" not in t
+         and not any(x.startswith(b"text:") for x in t)]
+    if tier == "quick":
+        S = S[::4]
+    h = len(g.require_all())
+    evals = 0
+    distinct = set()
+    findings = Findings()
+    samples = []
+    seps = [b"\n", b"\r\n", b" "]
+    prefixes = [b"", "# caf\xc3\xa9 \xe2\x82\xac\n".encode("latin-1")]
+    for toks in S:
+        # where may a command start / where do arguments of a complete command end
+        cmd_starts = [i for i in range(h, len(toks) + 1) if i == h or toks[i - 1] in (b";", b"{", b"}")]
+        semis = [i for i in range(h, len(toks)) if toks[i] == b";"]
+        ifs = [i for i in range(h, len(toks)) if toks[i].lower() in (b"if", b"elsif")]
+        cases = []
+        for i in cmd_starts[:6]:
+            cases.append(("unknown-command", i, [b"bogus", b";"], 0))
+            cases.append(("test-in-command-position", i, [b"true", b";"], 0))
+            cases.append(("no-token", i, [b"@"], 0))
+        for i in semis[:4]:
+            cases.append(("surplus-string", i, [b'"surplus"'], 0))
+            cases.append(("tag-not-taken", i, [b":bogus"], 0))
+            cases.append(("surplus-number", i, [b"42"], 0))
+            cases.append(("no-token", i, [b"$"], 0))
+        for i in ifs[:3]:
+            cases.append(("non-test-in-test-position", i + 1, [b"keep"], 0))
+        for (kind, i, ins, which) in cases:
+            t2 = toks[:i] + ins + toks[i:]
+            for sep in seps:
+                for pre in prefixes:
+                    body = sep.join(t2)
+                    data = pre + body
+                    off = len(pre) + _positions(t2, sep)[i + which]
+                    tok = ins[which]
+                    exp_line, exp_col = _line_col(data, off)
+                    r = real_parse(data)
+                    evals += 1
+                    distinct.add((kind, sep, bool(pre), len(toks), i))
+                    if r["verdict"] is not False:
+                        findings.note((pid, "accepted." + kind), data[len(pre):].decode("latin-1")[-90:], "verdict %r" % (r["verdict"],))
+                        continue
+                    ep = r["error_pos"]
+                    m = re.match(r"line (\d+):", r["error"] or "")
+                    got_line = int(m.group(1)) if m else None
+                    want = (exp_line, exp_col) if kind == "no-token" else (exp_line, exp_col, len(tok))
+                    got = tuple(ep[:2]) if kind == "no-token" else tuple(ep)
+                    if got != want or got_line != exp_line:
+                        findings.note((pid, "position." + kind), data[len(pre):].decode("latin-1")[-90:],
+                                      "reported %r (line %r), offending token %r is at %r" % (ep, got_line, tok, want))
+                    elif len(samples) < 3 and pre and sep == b"\r\n":
+                        samples.append({"script_tail": data.decode("latin-1")[-70:], "offending": tok.decode(), "error_pos": list(ep)})
+                    # independence from what follows the offending token
+                    cut = off + len(tok)
+                    for tail in (b"", b" ;", b"\n\xff\xfe garbage {{{"):
+                        r2 = real_parse(data[:cut] + tail)
+                        evals += 1
+                        if r2["verdict"] is False and r2["error_pos"] != ep and kind != "no-token":
+                            findings.note((pid, "depends-on-suffix." + kind), data[len(pre):cut].decode("latin-1")[-90:],
+                                          "error_pos %r with the original continuation, %r with %r" % (ep, r2["error_pos"], tail))
+                        elif r2["verdict"] == "exception":
+                            findings.note((pid, "depends-on-suffix.exception"), (data[:cut] + tail).decode("latin-1")[-60:], r2["exc"])
+    vio = findings.violations(pid, "positions", (pid,))
+    return {"name": "error-positions", "bound": "%d generated scripts x insertion points (<= 6 command starts, <= 4 argument ends, "
+            "<= 3 test positions) x 7 kinds of offending token x {LF, CRLF, space} x {no prefix, multi-byte comment prefix} x 3 "
+            "continuations = %d parses" % (len(S), evals), "rule": "distinct = (kind, separator, prefix, script, insertion point)",
+            "evaluations": evals, "distinct": len(distinct), "samples": samples, "exhaustive": False, "violations": vio}
+
+
+def bounded_linecol(pid, tier, seed):
+    """Lexer.curlineno / curcolno against an independent definition, exhaustively on small texts"""
+    from sievelib.parser import Lexer, Parser
+    lx = Lexer(Parser.lrules)
+    n = 6 if tier == "quick" else 8
+    evals = 0
+    findings = Findings()
+    for ln in range(n + 1):
+        for tup in itertools.product(b"a\n\r", repeat=ln):
+            text = bytes(tup)
+            lx.text = text
+            for pos in range(ln + 1):
+                lx.pos = pos
+                evals += 1
+                line = 1
+                col = 1
+                for i in range(pos):
+                    if text[i] == 10:
+                        line += 1
+                        col = 1
+                    else:
+                        col += 1
+                if (lx.curlineno(), lx.curcolno()) != (line, col):
+                    findings.note((pid, "linecol"), repr(text) + "@%d" % pos, "curlineno/curcolno = %r, expected %r"
+                                  % ((lx.curlineno(), lx.curcolno()), (line, col)))
+    return {"name": "line-column-arithmetic", "bound": "all texts of length <= %d over {a, LF, CR} x every position: %d cases" % (n, evals),
+            "rule": "distinct = (text, position)", "evaluations": evals, "distinct": evals,
+            "samples": [{"text": "a\\n\\ra", "pos": 3, "line_col": [2, 2]}], "exhaustive": True,
+            "violations": findings.violations(pid, "linecol", (pid,))}
+
+
+# ----------------------------------------------------------------------------- C13: histories
+
+HISTORY_CORPUS = [
+    b'require ["fileinto"]; fileinto "a";', b'fileinto "a";', b'require ["regex", "relational"]; if header :regex "a" "b" { keep; }',
+    b'if header :regex "a" "b" { keep; }', b'if header :count "gt" "a" "1" { keep; }', b'require ["imap4flags"]; if true {',
+    b'require "copy"; redirect :copy', b'keep;', b'if anyof(true, false { stop; }', b'require ["vacation"]; vacation "x";',
+    b'vacation "x";', b'# c\nrequire ["body"]; if body :text :contains "x" { discard; }', b'# Filter: a\nkeep; # trailing comment\n',
+]
+
+
+def _outcome(p, data):
+    try:
+        ok = p.parse(data)
+    except Exception as e:
+        return ("exception", "%s: %s" % (type(e).__name__, e))
+    if ok:
+        buf = io.StringIO()
+        for c in p.result:
+            c.tosieve(target=buf)
+        return ("True", buf.getvalue(), [[h.decode("latin-1") if isinstance(h, bytes) else h for h in c.hash_comments] for c in p.result])
+    return ("False", p.error, p.error_pos)
+
+
+def _factory_outcome():
+    from sievelib.factory import FiltersSet
+    out = []
+    for conds in ([("Subject", ":regex", "a.*")], [("Subject", ":count", "1")], [("Subject", ":is", "x")],
+                  [("envelope", ":regex", ["from"], ["x"])], [("body", ":raw", ":regex", "x")]):
+        fs = FiltersSet("t")
+        try:
+            fs.addfilter("r", conds, [("keep",)])
+            out.append(("ok", str(fs)))
+        except Exception as e:
+            out.append(("raise", type(e).__name__, str(e)))
+    return out
+
+
+def bounded_histories(pid, tier, seed):
+    import subprocess, json, os
+    from sievelib.parser import Parser
+    n = len(HISTORY_CORPUS)
+    # pristine outcomes: one fresh interpreter per script / for the factory probes
+    code = ("import sys, json; sys.path.insert(0, %r); sys.path.insert(0, %r)\n"
+            "from bounded import parser_bounded as pb\nfrom sievelib.parser import Parser\n"
+            "i = int(sys.argv[1])\n"
+            "print(json.dumps(pb._factory_outcome() if i < 0 else pb._outcome(Parser(), pb.HISTORY_CORPUS[i])))\n")
+    verif = os.path.dirname(os.path.dirname(os.path.abspath(__file__)))
+    repo = os.environ.get("SIEVELIB_REPO", "/repo")
+    pristine = {}
+    for i in list(range(n)) + [-1]:
+        out = subprocess.run([sys.executable, "-c", code % (repo, verif), str(i)], capture_output=True, text=True, timeout=120)
+        try:
+            pristine[i] = json.loads(out.stdout.strip().splitlines()[-1])
+        except Exception:
+            pristine[i] = ["exception", "pristine interpreter failed: " + out.stderr.strip()[-200:]]
+    evals = 0
+    findings = Findings()
+    samples = []
+    depth = 2 if tier == "quick" else 3
+    for hist in itertools.product(range(n), repeat=depth):
+        p = Parser()
+        for k, i in enumerate(hist):
+            got = json.loads(json.dumps(_outcome(p, HISTORY_CORPUS[i])))
+            evals += 1
+            if got != pristine[i]:
+                findings.note((pid, "parser-history"), " ; ".join(HISTORY_CORPUS[j].decode() for j in hist[:k + 1]),
+                              "outcome %r after that history, %r in a pristine interpreter" % (got[:2], pristine[i][:2]))
+                break
+        else:
+            # interleave: other Parser objects and a FiltersSet after this history
+            q = Parser()
+            g2 = json.loads(json.dumps(_outcome(q, HISTORY_CORPUS[hist[0]])))
+            if g2 != pristine[hist[0]]:
+                findings.note((pid, "second-parser"), HISTORY_CORPUS[hist[0]].decode(), "differs on a second Parser object")
+        fo = json.loads(json.dumps(_factory_outcome()))
+        evals += 1
+        if fo != pristine[-1]:
+            k = next(j for j in range(len(fo)) if fo[j] != pristine[-1][j])
+            findings.note((pid, "factory-after-parse.probe%d" % k), " ; ".join(HISTORY_CORPUS[j].decode() for j in hist),
+                          "FiltersSet.addfilter gives %r after that history, %r in a pristine interpreter" % (fo[k][:2], pristine[-1][k][:2]))
+        elif len(samples) < 2:
+            samples.append({"history": [HISTORY_CORPUS[j].decode() for j in hist], "verdict": "same as pristine"})
+    return {"name": "histories", "bound": "all histories of %d scripts from a %d-script corpus on one reused Parser (+ a second Parser, + 5 "
+            "FiltersSet probes after each history): %d outcomes compared with pristine interpreters" % (depth, n, evals),
+            "rule": "distinct = history", "evaluations": evals, "distinct": n ** depth, "samples": samples, "exhaustive": True,
+            "violations": findings.violations(pid, "histories", (pid,))}
